@@ -182,6 +182,9 @@ CORPUS = [
     [["compile", "swap_ab", True, "default", True], ["compile", "swap_ba", True, "default", True], ["truth_table", 1], ["compile", "swap_ab", True, "default", True]],
     [["compile", "swap_cab", True, "default", True], ["compile", "swap_abc", True, "default", True], ["grover", 1, None], ["compile", "swap_cab", True, "fast", True]],
     [["compile", "swap_int_ba", True, "default", True], ["compile", "swap_int_ab", True, "default", True], ["export", 1, "qasm", "circuit"], ["compile", "swap_int_ba", True, "default", False]],
+    [["compile", "fx_one", True, "default", True], ["compile", "int_sub_one", True, "default", True], ["truth_table", 1], ["compile", "fx_one", True, "default", True]],
+    [["compile", "int_sub_one", True, "default", True], ["compile", "fx_one", True, "default", True], ["truth_table", 1], ["compile", "int_two", True, "fast", True], ["compile", "fx_two", True, "default", True]],
+    [["compile", "fx_two", True, "default", True], ["compile", "forloop", True, "default", True], ["compile", "int_two", True, "default", True], ["compile", "fx_one", True, "fast", False]],
     [["compile_callable", "cmp", "default", False], ["compile", "cmp", True, "default", True], ["compile_callable", "cmp", "default", True], ["grover", 0, None], ["export", 2, "qasm", "circuit"]],
     [["compile_callable", "add", "default", True], ["compile_callable", "tuple", "default", False], ["truth_table", 0], ["decompile", 1]],
     [["compile", "inc", True, "default", True], ["defs", "param_caller", 0], ["bind", 1, {"c": 1}], ["bind", 1, {"c": 2}], ["bind", 1, {"c": 1}], ["truth_table", 3]],
